@@ -10,8 +10,9 @@ EXTENDS LfsConn, Json, IOUtils, TLCExt
 Rec == ndJsonDeserialize(IOEnv.TRACE)
 
 VARIABLES l,       \* next event to explain
-          rcount   \* results of the model already matched with Result events
-tvars == <<vars, l, rcount>>
+          rcount,  \* results of the model already matched with Result events
+          ucount   \* datagrams / messages written by the model already matched with Unit events
+tvars == <<vars, l, rcount, ucount>>
 
 FrameAny(n, c) == TRUE
 Many == 1000000
@@ -25,7 +26,7 @@ IsEvent(e) == l <= Len(Rec) /\ Rec[l].ev = e /\ l' = l + 1
 E == Rec[l]
 
 TInit == /\ Init /\ cfg = [transport |-> "stream", flavor |-> "blocking", verify |-> FALSE]
-         /\ l = 1 /\ rcount = 0
+         /\ l = 1 /\ rcount = 0 /\ ucount = 0
 
 \* a new session starts: everything back to the initial state, with the recorded configuration
 TReset ==
@@ -36,16 +37,16 @@ TReset ==
   /\ wcur' = 0 /\ wleft' = 0 /\ wlen' = 0 /\ nwrites' = 0 /\ wafter' = FALSE
   /\ out' = <<>> /\ units' = <<>> /\ results' = <<>>
   /\ nerr' = 0 /\ npend' = 0 /\ ncancel' = 0 /\ ntimeout' = 0
-  /\ hist' = <<>> /\ rcount' = 0
+  /\ hist' = <<>> /\ rcount' = 0 /\ ucount' = 0
 
-TPeerSend  == IsEvent("PeerSend") /\ PeerSend(E.n, E.s) /\ UNCHANGED rcount
-TPeerClose == IsEvent("PeerClose") /\ PeerClose /\ UNCHANGED rcount
+TPeerSend  == IsEvent("PeerSend") /\ PeerSend(E.n, E.s) /\ UNCHANGED <<rcount, ucount>>
+TPeerClose == IsEvent("PeerClose") /\ PeerClose /\ UNCHANGED <<rcount, ucount>>
 \* read() may only be called again when the previous call's result has been reported
-TReadCall  == IsEvent("ReadCall") /\ rcount = Len(results) /\ ReadCall /\ UNCHANGED rcount
+TReadCall  == IsEvent("ReadCall") /\ rcount = Len(results) /\ ucount = Len(units) /\ ReadCall /\ UNCHANGED <<rcount, ucount>>
 
 \* one call of the transport's read with `offered` bytes of room that returned `got`
 TTRead ==
-  /\ IsEvent("TRead") /\ UNCHANGED rcount
+  /\ IsEvent("TRead") /\ UNCHANGED <<rcount, ucount>>
   /\ CASE E.kind = "data"    -> FillStreamObs(E.got, E.offered)
        [] E.kind = "eof"     -> FillEof /\ E.offered >= 1
        [] E.kind = "err"     -> FillErr
@@ -55,7 +56,7 @@ TTRead ==
 \* one call of the transport's write: the code must offer exactly the unwritten rest of the
 \* frame it is sending (the reply when pc = "pong", the user's frame when pc = "write")
 TTWrite ==
-  /\ IsEvent("TWrite") /\ UNCHANGED rcount
+  /\ IsEvent("TWrite") /\ UNCHANGED <<rcount, ucount>>
   /\ CASE E.kind = "ok" /\ pc = "pong"  -> E.offered = pongleft /\ E.bytes_ok /\ PongWrite(E.accepted)
        [] E.kind = "ok" /\ pc = "write" -> E.offered = wleft /\ E.bytes_ok /\ WriteAccept(E.accepted)
        [] E.kind = "pending" /\ pc = "pong"  -> PongPending
@@ -69,22 +70,36 @@ TResult ==
   /\ LET r == results[rcount + 1] IN
        /\ r.t = E.t
        /\ (E.t = "pkt" => r.id = E.id)
-  /\ rcount' = rcount + 1 /\ UNCHANGED vars
+  /\ rcount' = rcount + 1 /\ UNCHANGED <<vars, ucount>>
 
-TCancel    == IsEvent("Cancel") /\ Cancel /\ UNCHANGED rcount
-TWriteCall == IsEvent("WriteCall") /\ rcount = Len(results) /\ WriteCall(E.n) /\ UNCHANGED rcount
-TWriteDone == IsEvent("WriteDone") /\ pc = "idle" /\ E.res = "ok" /\ wleft = 0 /\ UNCHANGED <<vars, rcount>>
+\* real sockets ---------------------------------------------------------------
+TPeerDgram == /\ IsEvent("PeerDgram") /\ UNCHANGED <<rcount, ucount>>
+              /\ PeerDgram([i \in 1..Len(E.frames) |-> [len |-> E.frames[i].n, cls |-> E.frames[i].s]])
+TPeerWsMsg == /\ IsEvent("PeerWsMsg") /\ UNCHANGED <<rcount, ucount>>
+              /\ IF E.kind = "binary" THEN PeerWsPack(E.n) ELSE PeerWsOther(E.kind)
+\* the peer socket received one datagram / binary message: it must be the next unit the model wrote, whole
+TUnit == /\ IsEvent("Unit") /\ E.ok
+         /\ ucount < Len(units) /\ units[ucount + 1] = E.n
+         /\ ucount' = ucount + 1 /\ UNCHANGED <<vars, rcount>>
+
+TCancel    == IsEvent("Cancel") /\ Cancel /\ UNCHANGED <<rcount, ucount>>
+TWriteCall == IsEvent("WriteCall") /\ rcount = Len(results) /\ WriteCall(E.n) /\ UNCHANGED <<rcount, ucount>>
+TWriteDone == IsEvent("WriteDone") /\ pc = "idle" /\ E.res = "ok" /\ wleft = 0 /\ UNCHANGED <<vars, rcount, ucount>>
 
 \* a frame the harness decided not to send (the stand-alone codec could not classify it)
-TSkipped == IsEvent("Skipped") /\ UNCHANGED <<vars, rcount>>
+TSkipped == IsEvent("Skipped") /\ UNCHANGED <<vars, rcount, ucount>>
 
 \* not observable: the decode attempt between two transport reads
 TSilent == /\ \/ (pc = "loop" /\ TryDecode)
               \/ PongFinish
-           /\ UNCHANGED <<l, rcount>>
+              \* adaptors on real sockets: their internal reads and the atomic writes are not observable
+              \/ (~IsStream /\ (FillUdpBuffered \/ FillWs \/ FillEof))
+              \/ (Atomic /\ pongleft > 0 /\ PongWrite(pongleft))
+              \/ (Atomic /\ wleft > 0 /\ WriteAccept(wleft))
+           /\ UNCHANGED <<l, rcount, ucount>>
 
 TNext == \/ TReset \/ TPeerSend \/ TPeerClose \/ TReadCall \/ TTRead \/ TTWrite \/ TResult
-         \/ TCancel \/ TWriteCall \/ TWriteDone \/ TSkipped \/ TSilent
+         \/ TPeerDgram \/ TPeerWsMsg \/ TUnit \/ TCancel \/ TWriteCall \/ TWriteDone \/ TSkipped \/ TSilent
 TSpec == TInit /\ [][TNext]_tvars
 
 \* progress register (needs -workers 1)
